@@ -500,6 +500,19 @@ func (r *runner) step(i int, x op) *vh.Violation {
 		if len(so.obs) != 0 || len(so.vaas) != 0 || len(so.reqs) != 0 {
 			return vh.V(r.o.pfx+"/inbound-vaa-rebroadcast", "an inbound signed VAA made the processor emit gossip")
 		}
+		if r.o.contracts != nil && e.cur != nil {
+			// a peer's VAA the node accepts as complete under its current set is accepted on chain as well
+			for _, ch := range so.changed {
+				if ch[1] == nil {
+					continue
+				}
+				if p, err := vh.RefParse(ch[1]); err == nil && p.GSIndex == e.cur.Index {
+					if v := r.contractsAccept(ch[1]); v != nil {
+						return v
+					}
+				}
+			}
+		}
 		if r.o.safety {
 			if len(so.quorumEvents) > len(so.changed) {
 				return vh.V("C01/quorum-event-without-store", "an inbound VAA was reported as quorum VAA (%d events) without being stored (%d store changes)", len(so.quorumEvents), len(so.changed))
